@@ -76,6 +76,9 @@ func runC19(run *common.Run) {
 	if run.WantSub("handback") && !run.TooMany() {
 		c19HandBack(run)
 	}
+	if run.WantSub("runctx") && !run.TooMany() {
+		c19RunCtx(run)
+	}
 	if run.WantSub("stress") && !run.TooMany() {
 		c19Stress(run)
 	}
@@ -637,4 +640,93 @@ func c19ReplayExact(run *common.Run) bool {
 	run.Count("replay_schedule_runs", 40)
 	run.Count("replay_schedule_diverged", int64(diverged))
 	return run.Replay.Sub != "stress"
+}
+
+// c19RunCtx: the context a Run callback receives is an ordinary value that callers keep, derive from and hand to other
+// goroutines. Whatever context a later or concurrent Run (or Lock) on the same key is given - the callback's own
+// context, one derived from it, one saved from an earlier Run - it must wait while somebody else holds the key.
+// Verdict: a callback observed running while another caller holds the key is a violation whenever it happens; the
+// waiting windows (20 ms) only bound how long the check looks, never decide.
+func c19RunCtx(run *common.Run) {
+	rounds := run.N(60, 2000)
+	for round := 0; round < rounds && !run.TooMany(); round++ {
+		if !run.Want("runctx", round) {
+			continue
+		}
+		m := gcsutil.NewTransientLockMap()
+		key := fmt.Sprintf("obj%d", round%3)
+		shape := round % 4
+		var saved context.Context
+		// a first Run whose callback keeps its context
+		_ = m.Run(context.Background(), key, func(ctx context.Context) error { saved = ctx; return nil })
+		derived, cancel := context.WithCancel(saved)
+		use := []context.Context{saved, derived, saved, derived}[shape]
+		var inside atomic.Int32
+		bad := ""
+		switch {
+		case shape < 2:
+			// (a) stale context: another caller holds the key, then Run is called with the saved context
+			if !m.Lock(context.Background(), key) {
+				run.Violation("runctx", round, "Lock of a free key returned false", nil)
+				cancel()
+				return
+			}
+			inside.Store(1)
+			done := make(chan struct{})
+			go func() {
+				defer close(done)
+				_ = m.Run(use, key, func(context.Context) error {
+					if inside.Load() != 0 {
+						bad = "Run executed its callback while another caller holds the key (Run was given a context saved from an earlier Run callback on that key)"
+					}
+					return nil
+				})
+			}()
+			time.Sleep(20 * time.Millisecond)
+			inside.Store(0)
+			m.Unlock(key)
+			<-done
+		default:
+			// (b) concurrent: the callback of a running Run hands its context to another goroutine, which calls Run on the same key
+			done := make(chan struct{})
+			_ = m.Run(context.Background(), key, func(ctx context.Context) error {
+				inner := ctx
+				if shape == 3 {
+					var c2 context.CancelFunc
+					inner, c2 = context.WithCancel(ctx)
+					defer c2()
+				}
+				inside.Store(1)
+				go func() {
+					defer close(done)
+					_ = m.Run(inner, key, func(context.Context) error {
+						if inside.Load() != 0 {
+							bad = "Run executed its callback while the callback of another Run on the same key was still running (the second Run was given the first callback's context)"
+						}
+						return nil
+					})
+				}()
+				time.Sleep(20 * time.Millisecond)
+				inside.Store(0)
+				return nil
+			})
+			select {
+			case <-done:
+			case <-time.After(20 * time.Second):
+				// shape 3 cancels the derived context when the outer callback returns: the inner Run may give up - fine
+				<-done
+			}
+		}
+		cancel()
+		if bad != "" {
+			run.Violation("runctx", round, fmt.Sprintf("%s (shape %d)", bad, shape), nil)
+			return
+		}
+		if l := m.VerifLen(); l != 0 {
+			run.Violation("runctx", round, fmt.Sprintf("nobody holds or awaits a lock, but the map retains %d entries (shape %d)", l, shape), nil)
+			return
+		}
+		run.Count("runctx_rounds", 1)
+		run.Case(common.Hash64("runctx", fmt.Sprint(round)), true)
+	}
 }
